@@ -33,6 +33,7 @@ Match(pat, s) ==
 SeqsUpTo(S, n) == UNION { [1..k -> S] : k \in 0..n }
 Paths == SeqsUpTo(PathCh, PathLen)
 Paths2 == SeqsUpTo({"a", "b"}, PathLen2)
+Paths3 == SeqsUpTo({"a", "/"}, PathLen2)
 
 \* ---- documents
 PatPool == << <<"*">>, <<"a", "/", "*">>, <<"a", "/", "b">>, <<"?">>, <<"*", ".", "a">>, <<"\\*">>, <<"a", "/", "?">> >>
@@ -62,6 +63,9 @@ Init ==
        case = [k |-> "glob", pat |-> pat, m |-> { p \in Paths : Match(pat, p) }, ps |-> Paths]
   \/ \E n \in (PatLen + 1)..PatLen2 : \E pat \in [1..n -> {"a", "b", "*", "?"}] :
        case = [k |-> "glob", pat |-> pat, m |-> { p \in Paths2 : Match(pat, p) }, ps |-> Paths2]
+  \* ... and with the directory separator, which is an ordinary character for '*' and '?' ("a/**/a" is not gitignore's)
+  \/ \E n \in (PatLen + 1)..PatLen2 : \E pat \in [1..n -> {"a", "/", "*", "?"}] :
+       case = [k |-> "glob", pat |-> pat, m |-> { p \in Paths3 : Match(pat, p) }, ps |-> Paths3]
   \/ \E a \in FPs, b \in FPs, sl \in { <<>>, <<1>>, <<2, 1>>, <<1, 1>>, <<3, 1>>, <<3>> } :   \* (name 3 differs from name 1 by case only)
        LET fps == <<a, b>> IN
        case = [k |-> "doc", fps |-> fps, sl |-> sl,
